@@ -429,7 +429,7 @@ Definition update_with_change_set (s : vset) (changes : list validator) (allow_d
     [last] is the Go map (address -> power) built from the current NextValidators; the reported
     validators are scanned in the order the application returned them; an entry is an update
     when its address is not (any more) in the map or its power differs; the address is deleted
-    from the map after the first visit (so a repeated address is "not found" the second time);
+    from the map after the first visit (a repeated address never gets there: see [has_dup_addr]);
     what remains in the map becomes a removal (power 0).  Go enumerates the remaining keys in
     map-iteration order; the model emits them in the order of [last] — C06_valset_order_free
     is what makes that choice irrelevant. *)
@@ -471,10 +471,20 @@ Fixpoint calc_scan (m : amap) (vals : list validator) : list validator * amap :=
 
 Definition removal_of (e : N * Z) : validator := {| v_addr := fst e; v_power := 0; v_prio := 0 |}.
 
+(** the pre-scan added by fix 530b44a: a report that lists an address twice is handed on whole,
+    so that UpdateWithChangeSet rejects it ("duplicate entry") whatever the order of its entries *)
+Fixpoint has_dup_addr (seen : list N) (vals : list validator) : bool :=
+  match vals with
+  | [] => false
+  | v :: t => if existsb (N.eqb (v_addr v)) seen then true else has_dup_addr (v_addr v :: seen) t
+  end.
+
 Definition calculate_updates (last_vals vals : list validator) : list validator :=
   match vals with
   | [] => []
-  | _ => let '(ups, rest) := calc_scan (amap_of last_vals) vals in ups ++ map removal_of rest
+  | _ =>
+    if has_dup_addr [] vals then vals
+    else let '(ups, rest) := calc_scan (amap_of last_vals) vals in ups ++ map removal_of rest
   end.
 
 (** what updateState does with the change set (before IncrementProposerPriority): the error
